@@ -843,6 +843,8 @@ class ModuleCanon(object):
                 if r is None or r[1] is not dn:
                     return False
             from . import nf
+            from .model import attr_chain
+            plain_ref = isinstance(val, ast.Attribute) and attr_chain(val) is not None
             if nf.reads_heap(val):
                 # a value read from the heap is the same value later only if nothing in between can change the heap
                 for n, _ in use_nodes:
@@ -854,6 +856,16 @@ class ModuleCanon(object):
                         if m.kind in ("with_enter", "with_exit") or (m.kind == "for" and nf.has_impure(a_.iter)):
                             return False
                         probe = a_.iter if m.kind == "for" else a_
+                        if plain_ref and isinstance(probe, ast.AST):
+                            # an alias of `obj.attr`: only a re-binding of that attribute matters - an assignment to an
+                            # attribute of that name, or a call of a method of the same object (which might assign it)
+                            root = attr_chain(val)[0]
+                            if any(isinstance(y, ast.Attribute) and y.attr == val.attr and isinstance(y.ctx, (ast.Store, ast.Del)) for y in ast.walk(probe)):
+                                return False
+                            if any(isinstance(y, ast.Call) and isinstance(y.func, ast.Attribute) and isinstance(y.func.value, ast.Name) and y.func.value.id == root
+                                   and y.func.attr not in nf.PURE_METHODS for y in ast.walk(probe)):
+                                return False
+                            continue
                         if isinstance(probe, ast.AST) and (nf.has_impure(probe) or any(
                                 isinstance(y, (ast.Attribute, ast.Subscript)) and isinstance(y.ctx, (ast.Store, ast.Del)) for y in ast.walk(probe))):
                             return False
